@@ -1,6 +1,7 @@
 """C07 — permute, reshape and squeeze are exact index maps (DESIGN §C07)."""
 import itertools
 import math
+from fractions import Fraction
 from vcheck import Case, gnlist, gz
 import tgen
 
@@ -228,31 +229,342 @@ def gen_cases(rng, tier):
         tgt = [math.prod(shp) + rng.choice([1, 2])]
         cases.append(Case("reshape_d", {"shape": shp, "data": data, "new": tgt}, True))
         cases.append(Case("reshape_sp", {"shape": shp, "subs": subs, "vals": vals, "new": tgt, "old": None}, True))
+    # ================= third wave: layout classes, stored zeros, magnitudes, computed-empty operands, multi-step chains
+    cases += gen_w3(rng, big)
+    return cases
+
+
+DENSE_LAYOUTS = ["C", "C_nocopy", "transposed", "sliced", "assignC", "assign_view", "int"]
+FACTOR_LAYOUTS = ["C", "assignC", "assign_view"]
+SCALES = [-30, -20, 24, 40]
+
+
+def inject_zeros(rng, shp, subs, vals, force=True):
+    """explicitly stored zeros (accepted by the plain constructor): at free positions and/or replacing stored values"""
+    subs, vals = [list(r) for r in subs], list(vals)
+    free = [i for i in tgen.all_subs(shp) if i not in subs]
+    rng.shuffle(free)
+    k = rng.randint(1, 2) if force else rng.randint(0, 1)
+    for i in free[:k]:
+        pos = rng.randint(0, len(subs))
+        subs.insert(pos, i)
+        vals.insert(pos, 0)
+    if vals and (not free or rng.random() < 0.3):
+        vals[rng.randrange(len(vals))] = 0
+    return subs, vals
+
+
+def unit_kruskal(rng, shp, R, for_all=False):
+    """columns with exactly one nonzero entry (2-norm exact); for weight_factor='all' entries +-1 and unit weights, so that
+    normalize stays inside the integers"""
+    fs = []
+    for d in shp:
+        m = [[0] * R for _ in range(d)]
+        for r in range(R):
+            m[rng.randrange(d)][r] = rng.choice([-1, 1]) if for_all else rng.choice([-3, -2, -1, 1, 2, 3])
+        fs.append(m)
+    w = [1] * R if for_all else [rng.choice([-2, 1, 2, 3]) for _ in range(R)]
+    return {"weights": w, "factors": fs}
+
+
+def nonones(s):
+    return [d for d in s if d != 1]
+
+
+def gen_w3(rng, big):
+    cases = []
+    rep = 3 if big else 1
+    # ---------------- dense holders in every memory layout (values are the same logical array in each)
+    lshapes = [[2, 3], [3, 2, 2], [2, 3, 4], [1, 3, 2], [2, 1, 3], [4], [1, 5], [3, 1], [2, 2, 3, 2], [2, 1, 2, 3]]
+    if big:
+        lshapes += [tgen.rand_shape(rng, maxn=4, maxcells=60) for _ in range(8)]
+    for shp in lshapes:
+        N, n = len(shp), math.prod(shp)
+        perms = list(itertools.permutations(range(N)))
+        facs = [f for f in ordered_factorisations(n) if len(f) <= 4] or [[n]]
+        for lay in DENSE_LAYOUTS:
+            for _ in range(rep):
+                data = tgen.rand_dense(rng, shp, rng.choice([0.7, 1.0]))
+                for p in (perms if (big and N <= 3) else rng.sample(perms, min(len(perms), 3))):
+                    cases.append(Case("permute_d", {"shape": shp, "data": data, "p": list(p), "layout": lay},
+                                      n > 1 and any(data) and list(p) != sorted(p)))
+                for tgt in rng.sample(facs, min(len(facs), 3)) + [with_ones(rng, rng.choice(facs))]:
+                    cases.append(Case("reshape_d", {"shape": shp, "data": data, "new": tgt, "layout": lay},
+                                      n > 1 and any(data) and tgt != shp))
+                if 1 in shp:
+                    cases.append(Case("squeeze_d", {"shape": shp, "data": data, "layout": lay}, any(data)))
+    for shp in [[1, 1], [1], [1, 1, 1]]:
+        for lay in DENSE_LAYOUTS:
+            cases.append(Case("squeeze_d", {"shape": shp, "data": [rng.choice([-2, 3, 4])], "layout": lay}, False))
+    # ---------------- magnitudes: the same integers scaled by 2^k (exact in float64); every value must come back bit-exact
+    for shp in [[2, 3, 2], [3, 1, 2], [4, 3], [5], [1, 1]]:
+        N, n = len(shp), math.prod(shp)
+        facs = ordered_factorisations(n) if n > 1 else [[1]]
+        for k in SCALES:
+            data = tgen.rand_dense(rng, shp, 0.8)
+            p = list(range(N))
+            rng.shuffle(p)
+            cases.append(Case("permute_d", {"shape": shp, "data": data, "p": p, "scale_exp": k}, n > 1 and any(data)))
+            cases.append(Case("reshape_d", {"shape": shp, "data": data, "new": rng.choice(facs), "scale_exp": k}, n > 1 and any(data)))
+            cases.append(Case("squeeze_d", {"shape": shp, "data": data, "scale_exp": k}, n > 1 and any(data) and 1 in shp))
+            subs, vals = rand_sparse(rng, shp, 0.6)
+            cases.append(Case("permute_sp", {"shape": shp, "subs": subs, "vals": vals, "p": p, "scale_exp": k}, bool(vals)))
+            cases.append(Case("reshape_sp", {"shape": shp, "subs": subs, "vals": vals, "new": with_ones(rng, rng.choice(facs)),
+                                             "old": None, "scale_exp": k}, bool(vals)))
+            cases.append(Case("squeeze_sp", {"shape": shp, "subs": subs, "vals": vals, "scale_exp": k}, bool(vals)))
+    # ---------------- sparse: explicitly stored zeros; integer-typed values; operands without entries that come out of a computation
+    sshapes = [[2, 3], [2, 3, 4], [3, 1, 2], [1, 4], [2, 2, 1, 3], [1, 1], [1, 1, 1], [6]]
+    if big:
+        sshapes += [tgen.rand_shape(rng, maxn=4, maxcells=48) for _ in range(8)]
+    for shp in sshapes:
+        N, n = len(shp), math.prod(shp)
+        facs = ordered_factorisations(n) if n > 1 else [[1]]
+        for variant in ["zeros", "zeros", "int", "minus", "times0"]:
+            for _ in range(rep):
+                extra = {}
+                if variant == "zeros":
+                    subs, vals = rand_sparse(rng, shp, rng.choice([0.0, 0.4, 0.7]))
+                    subs, vals = inject_zeros(rng, shp, subs, vals)
+                    extra = {"zeros": True}
+                elif variant == "int":
+                    subs, vals = rand_sparse(rng, shp, 0.6)
+                    extra = {"dtype": "int"}
+                else:        # the operand is S - S  /  S * 0 for a random non-empty S: no stored entry, subs of a computed shape
+                    subs, vals = rand_sparse(rng, shp, 0.7)
+                    if not vals:
+                        continue
+                    extra = {"via": variant}
+                nt = bool(vals) and n > 1 and variant in ("zeros", "int")
+                p = list(range(N))
+                rng.shuffle(p)
+                base = {"shape": shp, "subs": subs, "vals": vals}
+                cases.append(Case("permute_sp", dict(base, p=p, **extra), nt))
+                cases.append(Case("reshape_sp", dict(base, new=with_ones(rng, rng.choice(facs)), old=None, **extra), nt))
+                cases.append(Case("squeeze_sp", dict(base, **extra), nt and 1 in shp))
+                if N >= 2:
+                    r = rng.randint(1, N)
+                    old = rng.sample(range(N), r)
+                    m = math.prod(shp[k] for k in old)
+                    f2 = ordered_factorisations(m) if m > 1 else [[1]]
+                    tgt = rng.choice(f2) or [1]
+                    cases.append(Case("reshape_sp", dict(base, new=tgt, old=old, **extra), nt))
+                    if variant in ("zeros", "int"):
+                        cases.append(Case("reshape_sp_rt", dict(base, new=tgt, old=old, **extra), nt))
+    # ---------------- Kruskal / Tucker holders whose factor matrices are C-ordered / views / left C-ordered by normalize
+    fshapes = [[2, 3], [3, 2, 4], [2, 3, 2], [1, 3, 2], [2, 2, 3, 2], [3]]
+    for shp in fshapes:
+        N, n = len(shp), math.prod(shp)
+        perms = list(itertools.permutations(range(N)))
+        facs = ordered_factorisations(n) if n > 1 else [[1]]
+        for lay in FACTOR_LAYOUTS:
+            for p in rng.sample(perms, min(len(perms), 4 if big else 2)):
+                p = list(p)
+                R = rng.choice([2, 3])
+                K = {"weights": [rng.choice([-2, -1, 1, 2, 3]) for _ in range(R)], "factors": [rand_matrix(rng, d, R) for d in shp]}
+                cases.append(Case("permute_k", {"shape": shp, "K": K, "p": p, "flayout": lay}, n > 1))
+                cshape = [rng.randint(1, 2) for _ in shp]
+                core = tgen.rand_dense(rng, cshape, 1.0)
+                T = {"cshape": cshape, "core": core, "factors": [rand_matrix(rng, d, c) for d, c in zip(shp, cshape)]}
+                cases.append(Case("permute_t", {"shape": shp, "T": T, "p": p, "flayout": lay}, n > 1))
+                csubs, cvals = tgen.dense_to_sparse(cshape, core, rng, "random")
+                Ts = {"cshape": cshape, "csubs": csubs, "cvals": cvals, "factors": T["factors"]}
+                cases.append(Case("permute_st", {"shape": shp, "T": Ts, "p": p, "flayout": lay}, n > 1))
+            K = {"weights": [rng.choice([-2, 1, 3]) for _ in range(2)], "factors": [rand_matrix(rng, d, 2) for d in shp]}
+            cshape = [rng.randint(1, 2) for _ in shp]
+            T = {"cshape": cshape, "core": tgen.rand_dense(rng, cshape, 1.0), "factors": [rand_matrix(rng, d, c) for d, c in zip(shp, cshape)]}
+            for holder, H in (("k", K), ("t", T)):
+                cases.append(Case("reshape_full", {"shape": shp, "holder": holder, "H": H, "new": rng.choice(facs), "flayout": lay}, n > 1))
+                if 1 in shp:
+                    cases.append(Case("squeeze_full", {"shape": shp, "holder": holder, "H": H, "flayout": lay}, n > 1))
+        # after K.normalize(weight_factor=k | 'all') pyttb itself holds C-ordered factor matrices
+        for wf in list(range(N)) + ["all"]:
+            for p in rng.sample(perms, min(len(perms), 3 if big else 2)):
+                K = unit_kruskal(rng, shp, rng.choice([2, 3]), for_all=(wf == "all"))
+                cases.append(Case("permute_k", {"shape": shp, "K": K, "p": list(p), "normalize": wf}, n > 1))
+            K = unit_kruskal(rng, shp, 2, for_all=(wf == "all"))
+            cases.append(Case("reshape_full", {"shape": shp, "holder": "k", "H": K, "new": rng.choice(facs), "normalize": wf}, n > 1))
+    # ---------------- multi-step histories; every intermediate object is observed raw
+    cshapes = [[2, 3, 4], [3, 2, 2], [2, 1, 3], [4, 3], [2, 3, 2, 2], [1, 2, 1, 3], [6], [3, 3, 2]]
+    if big:
+        cshapes += [tgen.rand_shape(rng, maxn=4, maxcells=48) for _ in range(10)]
+    for shp in cshapes:
+        N, n = len(shp), math.prod(shp)
+        perms = list(itertools.permutations(range(N)))
+        facs = [f for f in ordered_factorisations(n) if len(f) <= 4] or [[n]]
+        for _ in range(4 if big else 2):
+            p, q = list(rng.choice(perms)), list(rng.choice(perms))
+            data = tgen.rand_dense(rng, shp, rng.choice([0.6, 1.0]))
+            subs, vals = rand_sparse(rng, shp, rng.choice([0.0, 0.4, 0.8]))
+            if rng.random() < 0.3:
+                subs, vals = inject_zeros(rng, shp, subs, vals)
+            ntd, nts = n > 1 and any(data), n > 1 and bool(vals)
+            lay = rng.choice([None] + DENSE_LAYOUTS)
+            # permute ; permute   (= one permute by the composed order)  and a second call on the same object
+            steps = [["permute", p], ["permute", q]]
+            cases.append(Case("chain", {"holder": "d", "shape": shp, "data": data, "steps": steps, "law": "pp", "layout": lay}, ntd))
+            cases.append(Case("chain", {"holder": "sp", "shape": shp, "subs": subs, "vals": vals, "steps": steps, "law": "pp"}, nts))
+            R = rng.choice([1, 2, 3])
+            K = {"weights": [rng.choice([-2, -1, 1, 2, 3]) for _ in range(R)], "factors": [rand_matrix(rng, d, R) for d in shp]}
+            cases.append(Case("chain", {"holder": "k", "shape": shp, "H": K, "steps": steps, "law": "pp"}, n > 1))
+            cshape = [rng.randint(1, 2) for _ in shp]
+            core = tgen.rand_dense(rng, cshape, rng.choice([0.6, 1.0]))
+            T = {"cshape": cshape, "core": core, "factors": [rand_matrix(rng, d, c) for d, c in zip(shp, cshape)]}
+            cases.append(Case("chain", {"holder": "t", "shape": shp, "H": T, "steps": steps, "law": "pp"}, n > 1 and any(core)))
+            csubs, cvals = tgen.dense_to_sparse(cshape, core, rng, "random")
+            Ts = {"cshape": cshape, "csubs": csubs, "cvals": cvals, "factors": T["factors"]}
+            cases.append(Case("chain", {"holder": "st", "shape": shp, "H": Ts, "steps": steps, "law": "pp"}, n > 1 and any(core)))
+            # reshape ; permute ; reshape
+            s1 = list(rng.choice(facs))
+            if rng.random() < 0.4:
+                s1 = with_ones(rng, s1)
+            p1 = list(range(len(s1)))
+            rng.shuffle(p1)
+            s2 = list(rng.choice(facs))
+            steps = [["reshape", s1], ["permute", p1], ["reshape", s2]]
+            cases.append(Case("chain", {"holder": "d", "shape": shp, "data": data, "steps": steps, "law": None, "layout": lay}, ntd))
+            cases.append(Case("chain", {"holder": "sp", "shape": shp, "subs": subs, "vals": vals, "steps": steps, "law": None}, nts))
+            # reshape with inserted singleton modes ; squeeze   (= reshape to the non-singleton sizes)
+            s3 = with_ones(rng, rng.choice([shp, list(rng.choice(facs))]))
+            steps = [["reshape", s3], ["squeeze"]]
+            cases.append(Case("chain", {"holder": "d", "shape": shp, "data": data, "steps": steps, "law": "rs", "layout": lay}, ntd))
+            cases.append(Case("chain", {"holder": "sp", "shape": shp, "subs": subs, "vals": vals, "steps": steps, "law": "rs"}, nts))
+            # sparse only: subset reshape ; permute ; squeeze
+            if N >= 2:
+                old = rng.sample(range(N), rng.randint(1, N))
+                m = math.prod(shp[k] for k in old)
+                f2 = ordered_factorisations(m) if m > 1 else [[1]]
+                tgt = with_ones(rng, rng.choice(f2))
+                M = N - len(old) + len(tgt)
+                p2 = list(range(M))
+                rng.shuffle(p2)
+                steps = [["reshape_sub", tgt, old], ["permute", p2], ["squeeze"]]
+                cases.append(Case("chain", {"holder": "sp", "shape": shp, "subs": subs, "vals": vals, "steps": steps, "law": None}, nts))
+    for shp in [[1, 1], [1], [1, 1, 1]]:      # all-singleton chains end in a scalar
+        v = rng.choice([-2, 3])
+        steps = [["reshape", [1] * rng.randint(1, 4)], ["squeeze"]]
+        cases.append(Case("chain", {"holder": "d", "shape": shp, "data": [v], "steps": steps, "law": "rs", "layout": None}, False))
+        cases.append(Case("chain", {"holder": "sp", "shape": shp, "subs": [[0] * len(shp)], "vals": [v], "steps": steps, "law": "rs"}, False))
+        cases.append(Case("chain", {"holder": "sp", "shape": shp, "subs": [], "vals": [], "steps": steps, "law": "rs"}, False))
     return cases
 
 
 # ---------------------------------------------------------------------------------------- pyttb side
-def _mk_k(ttb, np, K, shape):
+def _noncontig_view(np, arr):
+    """a strided (neither C- nor F-contiguous) view holding the same logical values"""
+    big = np.full([2 * d + 1 for d in arr.shape], 77, dtype=arr.dtype)
+    view = big[tuple(slice(1, 2 * d, 2) for d in arr.shape)]
+    view[...] = arr
+    return view
+
+
+def _transposed_view(np, arr):
+    N = arr.ndim
+    q = list(range(1, N)) + [0]
+    base = np.ascontiguousarray(np.transpose(arr, q))
+    return np.transpose(base, [q.index(k) for k in range(N)])
+
+
+def _scale(a):
+    return 2.0 ** a["scale_exp"] if a.get("scale_exp") is not None else None
+
+
+def _mk_dense(ttb, np, a):
+    """the dense holder of a case in the requested memory layout; returns (tensor, logical ndarray)"""
+    arr = tgen.np_dense(np, a["shape"], a["data"])
+    if _scale(a) is not None:
+        arr = arr * _scale(a)
+    lay = a.get("layout")
+    if lay == "int":
+        arr = arr.astype(int)
+    shape = tuple(a["shape"])
+    if lay in (None, "F", "int"):
+        T = ttb.tensor(arr.copy(order="F"), shape, copy=True)
+    elif lay == "C":                 # built from C-ordered data
+        T = ttb.tensor(np.ascontiguousarray(arr))
+    elif lay == "C_nocopy":
+        T = ttb.tensor(np.ascontiguousarray(arr), copy=False)
+    elif lay == "transposed":        # built from a transposed view
+        T = ttb.tensor(_transposed_view(np, arr), copy=False)
+    elif lay == "sliced":            # built from a slice of a larger array
+        T = ttb.tensor(_noncontig_view(np, arr))
+    elif lay == "assignC":           # a C-ordered array assigned to the holder
+        T = ttb.tensor(arr.copy(order="F"), shape, copy=True)
+        T.data = np.ascontiguousarray(arr)
+    elif lay == "assign_view":
+        T = ttb.tensor(arr.copy(order="F"), shape, copy=True)
+        T.data = _noncontig_view(np, arr)
+    else:
+        raise ValueError(lay)
+    return T, arr
+
+
+def _eff_sparse(a):
+    """the stored lists of the operand (nothing stored when the operand is computed as S - S or S * 0)"""
+    return ([], []) if a.get("via") else (a["subs"], a["vals"])
+
+
+def _mk_sp(ttb, np, a):
+    shape, subs, vals = a["shape"], a["subs"], a["vals"]
+    s_ = np.array(subs, dtype=int).reshape((len(subs), len(shape)))
+    v_ = np.array(vals, dtype=int if a.get("dtype") == "int" else float).reshape((len(vals), 1))
+    if _scale(a) is not None:
+        v_ = v_ * _scale(a)
+    S = ttb.sptensor(s_, v_, tuple(shape), copy=True)
+    if a.get("via") == "minus":
+        S = S - S
+    elif a.get("via") == "times0":
+        S = S * 0
+    return S
+
+
+def _relayout(np, m, lay):
+    if lay in ("C", "assignC"):
+        return np.ascontiguousarray(m)
+    if lay == "assign_view":
+        return _noncontig_view(np, m)
+    return m
+
+
+def _mk_k(ttb, np, K, shape, lay=None):
     R = len(K["weights"])
     fm = [np.array(f, dtype=float).reshape((d, R)) for f, d in zip(K["factors"], shape)]
-    return ttb.ktensor([f.copy() for f in fm], np.array(K["weights"], dtype=float), copy=True)
+    if lay == "C":
+        return ttb.ktensor([np.ascontiguousarray(f) for f in fm], np.array(K["weights"], dtype=float), copy=True)
+    Kt = ttb.ktensor([f.copy() for f in fm], np.array(K["weights"], dtype=float), copy=True)
+    if lay in ("assignC", "assign_view"):
+        for n in range(len(fm)):
+            Kt.factor_matrices[n] = _relayout(np, Kt.factor_matrices[n], lay)
+    return Kt
 
 
-def _mk_t(ttb, np, T, shape):
+def _mk_t(ttb, np, T, shape, lay=None):
     core = tgen.mk_tensor(ttb, np, T["cshape"], T["core"])
     fm = [np.array(f, dtype=float).reshape((d, c)) for f, d, c in zip(T["factors"], shape, T["cshape"])]
-    return ttb.ttensor(core, [f.copy() for f in fm], copy=True)
+    if lay == "C":
+        return ttb.ttensor(core, [np.ascontiguousarray(f) for f in fm], copy=True)
+    Tt = ttb.ttensor(core, [f.copy() for f in fm], copy=True)
+    if lay in ("assignC", "assign_view"):
+        for n in range(len(fm)):
+            Tt.factor_matrices[n] = _relayout(np, Tt.factor_matrices[n], lay)
+        Tt.core.data = _relayout(np, Tt.core.data, lay)
+    return Tt
 
 
-def _mk_st(ttb, np, T, shape):
+def _mk_st(ttb, np, T, shape, lay=None):
     """Tucker holder with an sptensor core"""
     core = tgen.mk_sptensor(ttb, np, T["cshape"], T["csubs"], T["cvals"])
     fm = [np.array(f, dtype=float).reshape((d, c)) for f, d, c in zip(T["factors"], shape, T["cshape"])]
-    return ttb.ttensor(core, [f.copy() for f in fm], copy=True)
+    if lay == "C":
+        return ttb.ttensor(core, [np.ascontiguousarray(f) for f in fm], copy=True)
+    Tt = ttb.ttensor(core, [f.copy() for f in fm], copy=True)
+    if lay in ("assignC", "assign_view"):
+        for n in range(len(fm)):
+            Tt.factor_matrices[n] = _relayout(np, Tt.factor_matrices[n], lay)
+    return Tt
 
 
 def _mk_holder(ttb, np, a):
-    return {"k": _mk_k, "t": _mk_t, "st": _mk_st}[a["holder"]](ttb, np, a["H"], a["shape"])
+    return {"k": _mk_k, "t": _mk_t, "st": _mk_st}[a["holder"]](ttb, np, a["H"], a["shape"], a.get("flayout"))
 
 
 def _rs_order(N, old):
@@ -260,33 +572,151 @@ def _rs_order(N, old):
     return keep, keep + list(old)
 
 
+def _obs_d(np, R):
+    """raw dense observation: F-order value list of .data, its shape, the .shape attribute and the layout flag"""
+    ob = tgen.obs_dense(np, R)
+    ob["tshape"] = [int(d) for d in R.shape]
+    ob["fcontig"] = bool(R.data.flags["F_CONTIGUOUS"])
+    return ob
+
+
+def _obs_k(np, R):
+    return {"weights": [tgen.exact(x) for x in np.asarray(R.weights).ravel()],
+            "factors": [[[tgen.exact(x) for x in row] for row in np.asarray(f)] for f in R.factor_matrices]}
+
+
+def _obs_any(ttb, np, R):
+    if isinstance(R, ttb.tensor):
+        return {"kind": "d", "ob": _obs_d(np, R)}
+    if isinstance(R, ttb.sptensor):
+        return {"kind": "sp", "ob": tgen.obs_sparse(np, R)}
+    if isinstance(R, ttb.ktensor):
+        return {"kind": "k", "ob": _obs_k(np, R)}
+    if isinstance(R, ttb.ttensor):
+        fs = [tgen.obs_matrix(np, f) for f in R.factor_matrices]
+        if isinstance(R.core, ttb.sptensor):
+            return {"kind": "st", "ob": {"core": tgen.obs_sparse(np, R.core), "factors": fs}}
+        return {"kind": "t", "ob": {"core": _obs_d(np, R.core), "factors": fs}}
+    return {"kind": "scalar", "ob": tgen.exact(R)}
+
+
+def _unscale_val(v, k):
+    if k is None or not isinstance(v, (int, Fraction)):
+        return v
+    w = Fraction(v) / (Fraction(2) ** k)
+    return int(w) if w.denominator == 1 else w
+
+
+def _unscale(o, k):
+    """values were generated as integer * 2^k: divide back exactly (a value that is not integer * 2^k stays a Fraction
+    and fails the integrality test of the comparer)"""
+    if k is None:
+        return o
+    if "scalar" in o:
+        o["scalar"] = _unscale_val(o["scalar"], k)
+    if "ok" in o:
+        for key in ("data", "vals"):
+            if key in o["ok"]:
+                o["ok"][key] = [_unscale_val(v, k) for v in o["ok"][key]]
+    return o
+
+
+def _step(ttb, np, X, st):
+    if st[0] == "permute":
+        return X.permute(np.array(st[1], dtype=int))
+    if st[0] == "reshape":
+        return X.reshape(tuple(st[1]))
+    if st[0] == "reshape_sub":
+        return X.reshape(tuple(st[1]), np.array(st[2], dtype=int))
+    if st[0] == "squeeze":
+        return X.squeeze()
+    raise ValueError(st)
+
+
+def _run_chain(ttb, np, a):
+    h = a["holder"]
+    if h == "d":
+        X, _ = _mk_dense(ttb, np, a)
+    elif h == "sp":
+        X = _mk_sp(ttb, np, a)
+    else:
+        X = _mk_holder(ttb, np, a)
+    X0 = X
+    out = {"steps": []}
+    for k, st in enumerate(a["steps"]):
+        try:
+            X = _step(ttb, np, X, st)
+        except Exception as ex:
+            out["exc"] = type(ex).__name__
+            out["msg"] = str(ex)[:200]
+            out["at"] = k
+            return out
+        out["steps"].append(_obs_any(ttb, np, X))
+        if out["steps"][-1]["kind"] == "scalar":
+            break
+    try:    # a second call of the first step on the same (original) object
+        out["again"] = _obs_any(ttb, np, _step(ttb, np, X0, a["steps"][0]))
+    except Exception as ex:
+        out["again"] = {"kind": "exc", "ob": type(ex).__name__}
+    return out
+
+
 def run_impl(c):
     import numpy as np
     import pyttb as ttb
     a = c.args
     try:
-        if c.op == "permute_d":
-            return {"ok": tgen.obs_dense(np, tgen.mk_tensor(ttb, np, a["shape"], a["data"]).permute(np.array(a["p"], dtype=int)))}
-        if c.op == "permute_sp":
-            S = tgen.mk_sptensor(ttb, np, a["shape"], a["subs"], a["vals"])
-            return {"ok": tgen.obs_sparse(np, S.permute(np.array(a["p"], dtype=int)))}
+        if c.op in ("permute_d", "reshape_d", "squeeze_d"):
+            T, arr = _mk_dense(ttb, np, a)
+            if c.op == "permute_d":
+                R = T.permute(np.array(a["p"], dtype=int))
+            elif c.op == "reshape_d":
+                R = T.reshape(tuple(a["new"]))
+            else:
+                R = T.squeeze()
+            o = {"ok": _obs_d(np, R)} if isinstance(R, ttb.tensor) else {"scalar": tgen.exact(R)}
+            if tuple(T.shape) != tuple(a["shape"]) or T.data.shape != arr.shape or not np.array_equal(T.data, arr):
+                o["input_changed"] = True
+            return _unscale(o, a.get("scale_exp"))
+        if c.op in ("permute_sp", "reshape_sp", "squeeze_sp"):
+            S = _mk_sp(ttb, np, a)
+            s0, v0, sh0 = S.subs.copy(), S.vals.copy(), tuple(S.shape)
+            if c.op == "permute_sp":
+                R = S.permute(np.array(a["p"], dtype=int))
+            elif c.op == "squeeze_sp":
+                R = S.squeeze()
+            elif a["old"] is None:
+                R = S.reshape(tuple(a["new"]))
+            elif a.get("old_int"):
+                R = S.reshape(tuple(a["new"]), int(a["old"][0]))
+            else:
+                R = S.reshape(tuple(a["new"]), np.array(a["old"], dtype=int))
+            o = {"ok": tgen.obs_sparse(np, R)} if isinstance(R, ttb.sptensor) else {"scalar": tgen.exact(R)}
+            if tuple(S.shape) != sh0 or not np.array_equal(S.subs, s0) or not np.array_equal(S.vals, v0):
+                o["input_changed"] = True
+            return _unscale(o, a.get("scale_exp"))
         if c.op == "permute_k":
-            K = _mk_k(ttb, np, a["K"], a["shape"])
+            K = _mk_k(ttb, np, a["K"], a["shape"], a.get("flayout"))
+            o = {}
+            if a.get("normalize") is not None:
+                K.normalize(weight_factor=a["normalize"])
+                o["pre"] = _obs_k(np, K)
+                o["pre_c"] = [bool(f.flags["C_CONTIGUOUS"]) for f in K.factor_matrices]
             R = K.permute(np.array(a["p"], dtype=int))
-            return {"ok": {"weights": [tgen.exact(x) for x in np.asarray(R.weights).ravel()],
-                           "factors": [[[tgen.exact(x) for x in row] for row in np.asarray(f)] for f in R.factor_matrices]}}
+            o["ok"] = _obs_k(np, R)
+            return o
         if c.op == "permute_t":
-            T = _mk_t(ttb, np, a["T"], a["shape"])
+            T = _mk_t(ttb, np, a["T"], a["shape"], a.get("flayout"))
             R = T.permute(np.array(a["p"], dtype=int))
-            return {"ok": {"core": tgen.obs_dense(np, R.core), "factors": [tgen.obs_matrix(np, f) for f in R.factor_matrices]}}
+            return {"ok": {"core": _obs_d(np, R.core), "factors": [tgen.obs_matrix(np, f) for f in R.factor_matrices]}}
         if c.op == "permute_st":
-            T = _mk_st(ttb, np, a["T"], a["shape"])
+            T = _mk_st(ttb, np, a["T"], a["shape"], a.get("flayout"))
             R = T.permute(np.array(a["p"], dtype=int))
             if not isinstance(R.core, ttb.sptensor):
                 return {"exc": "CoreNotSparse", "msg": type(R.core).__name__}
             return {"ok": {"core": tgen.obs_sparse(np, R.core), "factors": [tgen.obs_matrix(np, f) for f in R.factor_matrices]}}
         if c.op == "reshape_sp_rt":
-            S = tgen.mk_sptensor(ttb, np, a["shape"], a["subs"], a["vals"])
+            S = _mk_sp(ttb, np, a)
             keep, q = _rs_order(len(a["shape"]), a["old"])
             R = S.reshape(tuple(a["new"]), np.array(a["old"], dtype=int))
             R2 = R.reshape(tuple(a["shape"][k] for k in a["old"]), np.arange(len(keep), len(keep) + len(a["new"]), dtype=int))
@@ -297,7 +727,7 @@ def run_impl(c):
             out = {}
             try:
                 D = tgen.mk_tensor(ttb, np, a["shape"], a["data"]).permute(np.array(q, dtype=int))
-                out["dense"] = tgen.obs_dense(np, D.reshape(tuple([a["shape"][k] for k in keep] + list(a["new"]))))
+                out["dense"] = _obs_d(np, D.reshape(tuple([a["shape"][k] for k in keep] + list(a["new"]))))
             except Exception as ex:
                 out["dense_exc"] = type(ex).__name__
             try:
@@ -306,28 +736,17 @@ def run_impl(c):
             except Exception as ex:
                 out["sparse_exc"] = type(ex).__name__
             return out
-        if c.op == "reshape_full":
-            return {"ok": tgen.obs_dense(np, _mk_holder(ttb, np, a).full().reshape(tuple(a["new"])))}
-        if c.op == "squeeze_full":
-            R = _mk_holder(ttb, np, a).full().squeeze()
-            return {"ok": tgen.obs_dense(np, R)} if isinstance(R, ttb.tensor) else {"scalar": tgen.exact(R)}
-        if c.op == "reshape_d":
-            return {"ok": tgen.obs_dense(np, tgen.mk_tensor(ttb, np, a["shape"], a["data"]).reshape(tuple(a["new"])))}
-        if c.op == "reshape_sp":
-            S = tgen.mk_sptensor(ttb, np, a["shape"], a["subs"], a["vals"])
-            if a["old"] is None:
-                R = S.reshape(tuple(a["new"]))
-            elif a.get("old_int"):
-                R = S.reshape(tuple(a["new"]), int(a["old"][0]))
-            else:
-                R = S.reshape(tuple(a["new"]), np.array(a["old"], dtype=int))
-            return {"ok": tgen.obs_sparse(np, R)}
-        if c.op == "squeeze_d":
-            R = tgen.mk_tensor(ttb, np, a["shape"], a["data"]).squeeze()
-            return {"ok": tgen.obs_dense(np, R)} if isinstance(R, ttb.tensor) else {"scalar": tgen.exact(R)}
-        if c.op == "squeeze_sp":
-            R = tgen.mk_sptensor(ttb, np, a["shape"], a["subs"], a["vals"]).squeeze()
-            return {"ok": tgen.obs_sparse(np, R)} if isinstance(R, ttb.sptensor) else {"scalar": tgen.exact(R)}
+        if c.op in ("reshape_full", "squeeze_full"):
+            H = _mk_holder(ttb, np, a)
+            o = {}
+            if a.get("normalize") is not None:
+                H.normalize(weight_factor=a["normalize"])
+                o["pre"] = _obs_k(np, H)
+            R = H.full().reshape(tuple(a["new"])) if c.op == "reshape_full" else H.full().squeeze()
+            o.update({"ok": _obs_d(np, R)} if isinstance(R, ttb.tensor) else {"scalar": tgen.exact(R)})
+            return o
+        if c.op == "chain":
+            return _run_chain(ttb, np, a)
     except Exception as ex:
         return {"exc": type(ex).__name__, "msg": str(ex)[:200]}
     raise ValueError(c.op)
@@ -354,23 +773,130 @@ def _gmatrix(m):
     return "[" + "; ".join(tgen.gzlist(r) for r in m) + "]"
 
 
+def _d_ok(ob):
+    """a dense observation is usable: integer values, .shape attribute = data.shape, Fortran-ordered storage"""
+    return tgen.all_int(ob["data"]) and ob.get("tshape", ob["shape"]) == ob["shape"] and ob.get("fcontig", True)
+
+
+def _k_int(ob):
+    return tgen.all_int(ob["weights"]) and all(tgen.all_int(r) for f in ob["factors"] for r in f)
+
+
+def _lit(kind, ob):
+    """Gallina literal of an observed object (None when it is not representable: non-integers, nnz mismatch, ...)"""
+    if kind == "d":
+        return tgen.gdense(ob["shape"], ob["data"]) if _d_ok(ob) else None
+    if kind == "sp":
+        if not tgen.all_int(ob["vals"]) or ob["nnz"] != len(ob["subs"]):
+            return None
+        return tgen.gsparse(ob["shape"], ob["subs"], ob["vals"])
+    if kind == "k":
+        return _gk_shaped(ob, [len(f) for f in ob["factors"]]) if _k_int(ob) else None
+    if kind == "t":
+        if not _d_ok(ob["core"]) or not all(tgen.all_int(r) for f in ob["factors"] for r in f):
+            return None
+        return f"(mkT {tgen.gdense(ob['core']['shape'], ob['core']['data'])} {_gmat_list(ob['factors'])})"
+    if kind == "st":
+        oc = ob["core"]
+        if not tgen.all_int(oc["vals"]) or oc["nnz"] != len(oc["subs"]) or not all(tgen.all_int(r) for f in ob["factors"] for r in f):
+            return None
+        return f"(mkST {tgen.gsparse(oc['shape'], oc['subs'], oc['vals'])} {_gmat_list(ob['factors'])})"
+    return None
+
+
+def _chain_input(a):
+    h = a["holder"]
+    if h == "d":
+        return tgen.gdense(a["shape"], a["data"])
+    if h == "sp":
+        return tgen.gsparse(a["shape"], *_eff_sparse(a))
+    H = a["H"]
+    if h == "k":
+        return _gk_shaped(H, a["shape"])
+    if h == "t":
+        return f"(mkT {tgen.gdense(H['cshape'], H['core'])} {_gmat_list(H['factors'])})"
+    return f"(mkST {tgen.gsparse(H['cshape'], H['csubs'], H['cvals'])} {_gmat_list(H['factors'])})"
+
+
+_PERM = {"d": "permute_d 0%Z", "sp": "permute_sp", "k": "permute_k", "t": "permute_t 0%Z", "st": "permute_st"}
+_CMP = {"d": "od_ok", "sp": "os_ok", "k": "ok_ok", "t": "ot_ok", "st": "ost_ok"}
+
+
+def _step_check(kind, cur, st, res):
+    """model of one step applied to the literal [cur] against the observation [res] of pyttb's result"""
+    if st[0] == "squeeze":
+        f, cmp_ = ("squeeze_d 0%Z", "sqd_ok") if kind == "d" else ("squeeze_sp 0%Z", "sqs_ok")
+        if res["kind"] == "scalar":
+            return f"{cmp_} ({f} {cur}) (SqScalar {gz(res['ob'])})" if isinstance(res["ob"], int) else "false"
+        lit = _lit(kind, res["ob"]) if res["kind"] == kind else None
+        return f"{cmp_} ({f} {cur}) (SqT {lit})" if lit else "false"
+    if st[0] == "permute":
+        m = f"({_PERM[kind]} {cur} {gnlist(st[1])})"
+    elif st[0] == "reshape":
+        m = f"(reshape_d 0%Z {cur} {gnlist(st[1])})" if kind == "d" else f"(reshape_sp_all {cur} {gnlist(st[1])})"
+    else:
+        m = f"(reshape_sp {cur} {gnlist(st[1])} {gnlist(st[2])})"
+    lit = _lit(kind, res["ob"]) if res["kind"] == kind else None
+    return f"{_CMP[kind]} {m} (Some {lit})" if lit else "false"
+
+
+def _chain_check(a, o):
+    if "exc" in o or len(o["steps"]) == 0:
+        return "false"                     # every generated chain is admissible
+    kind = a["holder"]
+    T0 = _chain_input(a)
+    parts = []
+    cur = T0
+    for st, res in zip(a["steps"], o["steps"]):
+        parts.append(_step_check(kind, cur, st, res))
+        if res["kind"] == "scalar":
+            break
+        cur = _lit(kind, res["ob"]) if res["kind"] == kind else None
+        if cur is None:
+            return "false"
+    if len(o["steps"]) < len(a["steps"]) and o["steps"][-1]["kind"] != "scalar":
+        return "false"
+    parts.append(_step_check(kind, T0, a["steps"][0], o["again"]) if o["again"]["kind"] != "exc" else "false")
+    last = o["steps"][-1]
+    if a.get("law") == "pp":               # permute p ; permute q  =  permute (p[q])
+        p, q = a["steps"][0][1], a["steps"][1][1]
+        lit = _lit(kind, last["ob"]) if last["kind"] == kind else None
+        parts.append(f"{_CMP[kind]} ({_PERM[kind]} {T0} (pick 0 {gnlist(q)} {gnlist(p)})) (Some {lit})" if lit else "false")
+    elif a.get("law") == "rs":             # reshape s ; squeeze  =  reshape to the non-singleton sizes of s
+        tgt = nonones(a["steps"][0][1])
+        if tgt:
+            parts.append(_step_check(kind, T0, ["reshape", tgt], last))
+        else:
+            parts.append(_step_check(kind, T0, ["squeeze"], last))
+    if "false" in parts:
+        return "false"
+    e = parts[-1]
+    for x in reversed(parts[:-1]):
+        e = f"andb ({x}) ({e})"
+    return e
+
+
 def coq_check(c, o):
     a = c.args
     exc = "exc" in o
+    if o.get("input_changed"):
+        return "false"
+    if c.op == "chain":
+        return _chain_check(a, o)
     if c.op == "permute_d":
         T = tgen.gdense(a["shape"], a["data"])
-        if not exc and not tgen.all_int(o["ok"]["data"]):
+        if not exc and not _d_ok(o["ok"]):
             return "false"
         obs = "None" if exc else f"(Some {tgen.gdense(o['ok']['shape'], o['ok']['data'])})"
         return f"od_ok (permute_d 0%Z {T} {gnlist(a['p'])}) {obs}"
     if c.op == "reshape_d":
         T = tgen.gdense(a["shape"], a["data"])
-        if not exc and not tgen.all_int(o["ok"]["data"]):
+        if not exc and not _d_ok(o["ok"]):
             return "false"
         obs = "None" if exc else f"(Some {tgen.gdense(o['ok']['shape'], o['ok']['data'])})"
         return f"od_ok (reshape_d 0%Z {T} {gnlist(a['new'])}) {obs}"
     if c.op in ("permute_sp", "reshape_sp"):
-        S = tgen.gsparse(a["shape"], a["subs"], a["vals"])
+        S = tgen.gsparse(a["shape"], *_eff_sparse(a))
         if not exc:
             ob = o["ok"]
             if not tgen.all_int(ob["vals"]) or ob["nnz"] != len(ob["subs"]):
@@ -384,7 +910,10 @@ def coq_check(c, o):
             return f"os_ok (reshape_sp_all {S} {gnlist(a['new'])}) {obs}"
         return f"os_ok (reshape_sp {S} {gnlist(a['new'])} {gnlist(a['old'])}) {obs}"
     if c.op == "permute_k":
-        K = _gk_shaped(a["K"], a["shape"])
+        Kin = o.get("pre", a["K"])
+        if not _k_int(Kin):
+            return "false"      # normalize(weight_factor) of single-entry columns stays inside the integers
+        K = _gk_shaped(Kin, a["shape"])
         if exc:
             return f"ok_ok (permute_k {K} {gnlist(a['p'])}) None"
         ob = o["ok"]
@@ -398,7 +927,7 @@ def coq_check(c, o):
         if exc:
             return f"ot_ok (permute_t 0%Z {G} {gnlist(a['p'])}) None"
         ob = o["ok"]
-        if not tgen.all_int(ob["core"]["data"]) or not all(tgen.all_int(r) for f in ob["factors"] for r in f):
+        if not _d_ok(ob["core"]) or not all(tgen.all_int(r) for f in ob["factors"] for r in f):
             return "false"
         O = f"(mkT {tgen.gdense(ob['core']['shape'], ob['core']['data'])} {_gmat_list(ob['factors'])})"
         return f"ot_ok (permute_t 0%Z {G} {gnlist(a['p'])}) (Some {O})"
@@ -426,14 +955,16 @@ def coq_check(c, o):
         if "dense" not in o or "sparse" not in o:
             return "false"
         od, os_ = o["dense"], o["sparse"]
-        if not tgen.all_int(od["data"]) or not tgen.all_int(os_["vals"]) or os_["nnz"] != len(os_["subs"]):
+        if not _d_ok(od) or not tgen.all_int(os_["vals"]) or os_["nnz"] != len(os_["subs"]):
             return "false"
         T = tgen.gdense(a["shape"], a["data"])
         S = tgen.gsparse(a["shape"], a["subs"], a["vals"])
         return (f"agree_ok (reshape_d_route {T} {gnlist(a['new'])} {gnlist(a['old'])}) (Some {tgen.gdense(od['shape'], od['data'])}) "
                 f"(reshape_sp {S} {gnlist(a['new'])} {gnlist(a['old'])}) (Some {tgen.gsparse(os_['shape'], os_['subs'], os_['vals'])})")
     if c.op in ("reshape_full", "squeeze_full"):
-        H = a["H"]
+        H = o.get("pre", a["H"]) if a["holder"] == "k" else a["H"]
+        if a["holder"] == "k" and not _k_int(H):
+            return "false"
         if a["holder"] == "k":
             F = f"(zfull_k {_gk_shaped(H, a['shape'])})"
         elif a["holder"] == "t":
@@ -443,12 +974,12 @@ def coq_check(c, o):
         if exc:
             return "false"
         if c.op == "reshape_full":
-            if not tgen.all_int(o["ok"]["data"]):
+            if not _d_ok(o["ok"]):
                 return "false"
             return f"od_ok (reshape_d 0%Z {F} {gnlist(a['new'])}) (Some {tgen.gdense(o['ok']['shape'], o['ok']['data'])})"
         if "scalar" in o:
             return f"sqd_ok (squeeze_d 0%Z {F}) (SqScalar {gz(o['scalar'])})" if isinstance(o["scalar"], int) else "false"
-        if not tgen.all_int(o["ok"]["data"]):
+        if not _d_ok(o["ok"]):
             return "false"
         return f"sqd_ok (squeeze_d 0%Z {F}) (SqT {tgen.gdense(o['ok']['shape'], o['ok']['data'])})"
     if c.op == "squeeze_d":
@@ -457,11 +988,11 @@ def coq_check(c, o):
             return "false"
         if "scalar" in o:
             return f"sqd_ok (squeeze_d 0%Z {T}) (SqScalar {gz(o['scalar'])})" if isinstance(o["scalar"], int) else "false"
-        if not tgen.all_int(o["ok"]["data"]):
+        if not _d_ok(o["ok"]):
             return "false"
         return f"sqd_ok (squeeze_d 0%Z {T}) (SqT {tgen.gdense(o['ok']['shape'], o['ok']['data'])})"
     if c.op == "squeeze_sp":
-        S = tgen.gsparse(a["shape"], a["subs"], a["vals"])
+        S = tgen.gsparse(a["shape"], *_eff_sparse(a))
         if exc:
             return "false"
         if "scalar" in o:
@@ -490,15 +1021,134 @@ def _unlin(shape, k):
     return out
 
 
-def _sp_dict(ob):
+def _sp_dict(ob, zeros_ok=False):
+    """stored entries as a dict; None when a subscript is stored twice, lies outside the shape, or (unless the operand
+    itself was handed explicit zeros) a zero is stored"""
     d = {}
     for s, v in zip(ob["subs"], ob["vals"]):
-        if tuple(s) in d:
+        if tuple(s) in d or len(s) != len(ob["shape"]) or any(not 0 <= x < m for x, m in zip(s, ob["shape"])):
             return None
-        if v == 0:
+        if v == 0 and not zeros_ok:
             return None
         d[tuple(s)] = v
     return d
+
+
+def _din(a):
+    subs, vals = _eff_sparse(a)
+    return {tuple(s): v for s, v in zip(subs, vals)}
+
+
+def _dense_obs_defect(ob):
+    if ob.get("tshape", ob["shape"]) != ob["shape"]:
+        return f".shape attribute {ob['tshape']} differs from .data.shape {ob['shape']}"
+    if ob.get("fcontig") is False:
+        return "the result's .data is not Fortran-ordered"
+    return None
+
+
+# ---- independent evaluation of multi-step histories on index -> value tables
+def _table(kind, ob, zeros_ok=False):
+    """(shape, {index tuple: value}) of an observed / given object, None if ill-formed"""
+    if kind == "d":
+        if len(ob["data"]) != math.prod(ob["shape"]):
+            return None
+        return ob["shape"], {tuple(i): ob["data"][_lin(ob["shape"], i)] for i in tgen.all_subs(ob["shape"])}
+    if kind == "sp":
+        d = _sp_dict(ob, zeros_ok)
+        if d is None:
+            return None
+        return ob["shape"], {tuple(i): d.get(tuple(i), 0) for i in tgen.all_subs(ob["shape"])}
+    shp = [len(f) for f in ob["factors"]]
+    if kind == "k":
+        return shp, {tuple(i): _den_k(ob, i) for i in tgen.all_subs(shp)}
+    if kind == "t":
+        c = ob["core"]
+        return shp, {tuple(i): _den_t(c["shape"], c["data"], ob["factors"], i) for i in tgen.all_subs(shp)}
+    c = ob["core"]
+    cd = _sp_dict(c, zeros_ok)
+    if cd is None:
+        return None
+    return shp, {tuple(i): _den_st(c["shape"], cd, ob["factors"], i) for i in tgen.all_subs(shp)}
+
+
+def _table_step(shape, tab, st):
+    N = len(shape)
+    if st[0] == "permute":
+        p = st[1]
+        nshape = [shape[k] for k in p]
+        return nshape, {tuple(i[k] for k in p): v for i, v in tab.items()}
+    if st[0] == "reshape":
+        return list(st[1]), {tuple(_unlin(st[1], _lin(shape, i))): v for i, v in tab.items()}
+    if st[0] == "reshape_sub":
+        new, old = st[1], st[2]
+        keep = [k for k in range(N) if k not in old]
+        oshape = [shape[k] for k in old]
+        return ([shape[k] for k in keep] + list(new),
+                {tuple([i[k] for k in keep] + _unlin(new, _lin(oshape, [i[k] for k in old]))): v for i, v in tab.items()})
+    keepi = [k for k, d in enumerate(shape) if d > 1]
+    return [shape[k] for k in keepi], {tuple(i[k] for k in keepi): v for i, v in tab.items()}
+
+
+def _chain_oracle(a, o):
+    if "exc" in o:
+        return f"step {o.get('at')} of an admissible history raised {o['exc']}: {o.get('msg')}"
+    kind = a["holder"]
+    zeros_ok = kind == "sp" and 0 in a["vals"]
+    if kind == "d":
+        cur = _table("d", {"shape": a["shape"], "data": a["data"]})
+    elif kind == "sp":
+        subs, vals = _eff_sparse(a)
+        cur = _table("sp", {"shape": a["shape"], "subs": subs, "vals": vals}, True)
+        nnz0 = len(vals)
+    elif kind == "k":
+        cur = _table("k", a["H"])
+    elif kind == "t":
+        H = a["H"]
+        cur = _table("t", {"core": {"shape": H["cshape"], "data": H["core"]}, "factors": H["factors"]})
+    else:
+        H = a["H"]
+        cur = _table("st", {"core": {"shape": H["cshape"], "subs": H["csubs"], "vals": H["cvals"]}, "factors": H["factors"]}, True)
+    first = None
+    for k, (st, res) in enumerate(zip(a["steps"], o["steps"])):
+        shape, tab = _table_step(cur[0], cur[1], st)
+        if first is None:
+            first = (shape, tab)
+        if not shape:
+            if res["kind"] != "scalar" or res["ob"] != tab[()]:
+                return f"step {k} ({st[0]}): scalar result differs from the single entry"
+            return _again_oracle(a, o, first, zeros_ok)
+        if res["kind"] != kind:
+            return f"step {k} ({st[0]}): result is a {res['kind']}, expected the holder kind {kind}"
+        for dob in ([res["ob"]] if kind == "d" else [res["ob"]["core"]] if kind == "t" else []):
+            bad = _dense_obs_defect(dob)
+            if bad:
+                return f"step {k} ({st[0]}): {bad}"
+        got = _table(kind, res["ob"], zeros_ok)
+        if got is None:
+            return f"step {k} ({st[0]}): result ill-formed"
+        if kind == "sp" and res["ob"]["nnz"] != nnz0:
+            return f"step {k} ({st[0]}): number of stored entries changed"
+        if list(got[0]) != list(shape) or got[1] != tab:
+            return f"step {k} ({st[0]}): an entry is not at the position given by the index formula (or the shape is wrong)"
+        cur = (shape, tab)
+    if len(o["steps"]) < len(a["steps"]):
+        return "history stopped early"
+    return _again_oracle(a, o, first, zeros_ok)
+
+
+def _again_oracle(a, o, first, zeros_ok):
+    ag = o.get("again")
+    if ag is None or ag["kind"] == "exc":
+        return "the second call of the first step on the same object raised"
+    if not first[0]:
+        return None if ag["kind"] == "scalar" and ag["ob"] == first[1][()] else "second call on the same object differs"
+    if ag["kind"] != a["holder"]:
+        return "second call on the same object returns another kind of object"
+    got = _table(ag["kind"], ag["ob"], zeros_ok)
+    if got is None or list(got[0]) != list(first[0]) or got[1] != first[1]:
+        return "the second call of the same operation on the same object gives a different tensor"
+    return None
 
 
 def _den_k(K, i):
@@ -548,6 +1198,22 @@ def oracle(c, o):
     a = c.args
     shp = a["shape"]
     N = len(shp)
+    if o.get("input_changed"):
+        return "the argument was modified by the call"
+    if c.op == "chain":
+        return _chain_oracle(a, o)
+    zeros_ok = 0 in a.get("vals", [])
+    for dob in [o.get("ok"), o.get("dense"), (o.get("ok") or {}).get("core") if isinstance(o.get("ok"), dict) else None]:
+        if isinstance(dob, dict) and "data" in dob and "shape" in dob:
+            bad = _dense_obs_defect(dob)
+            if bad:
+                return bad
+    if "pre" in o:             # the holder as pyttb held it right before the call under test (after normalize)
+        a = dict(a)
+        if c.op == "permute_k":
+            a["K"] = o["pre"]
+        else:
+            a["H"] = o["pre"]
     if c.op.startswith("permute"):
         p = a["p"]
         if not _valid_perm(p, N):
@@ -570,8 +1236,8 @@ def oracle(c, o):
                     return f"entry {i} of the result is not entry {src(i)} of the argument"
             return None
         if c.op == "permute_sp":
-            d = _sp_dict(ob)
-            din = {tuple(s): v for s, v in zip(a["subs"], a["vals"])}
+            d = _sp_dict(ob, zeros_ok)
+            din = _din(a)
             if d is None or ob["shape"] != nshape or ob["nnz"] != len(din):
                 return "result ill-formed / wrong shape / wrong nnz"
             for i in tgen.all_subs(nshape):
@@ -623,8 +1289,8 @@ def oracle(c, o):
             return f"admissible reshape rejected: {o['exc']} {o.get('msg')}"
         ob = o["ok"]
         nshape = [shp[k] for k in keep] + a["new"]
-        d = _sp_dict(ob)
-        din = {tuple(s): v for s, v in zip(a["subs"], a["vals"])}
+        d = _sp_dict(ob, zeros_ok)
+        din = _din(a)
         if d is None or ob["shape"] != nshape or ob["nnz"] != len(din):
             return "result ill-formed / wrong shape / wrong nnz"
         want = {}
@@ -635,8 +1301,8 @@ def oracle(c, o):
     if c.op == "reshape_sp_rt":
         if "exc" in o:
             return f"round trip of an admissible subset reshape raised: {o['exc']} {o.get('msg')}"
-        d = _sp_dict(o["ok"])
-        din = {tuple(s): v for s, v in zip(a["subs"], a["vals"])}
+        d = _sp_dict(o["ok"], zeros_ok)
+        din = _din(a)
         if d is None or o["ok"]["shape"] != shp or d != din:
             return "reshape ; reshape back ; restore mode order did not return the original tensor"
         return None
@@ -688,13 +1354,13 @@ def oracle(c, o):
             if "ok" not in o or o["ok"]["shape"] != nshape or o["ok"]["data"] != a["data"]:
                 return "squeezed tensor differs"
             return None
-        din = {tuple(s): v for s, v in zip(a["subs"], a["vals"])}
+        din = _din(a)
         if not keepi:
             want = din.get(tuple([0] * N), 0)
             return None if o.get("scalar") == want else "scalar result differs from the single entry"
         if "ok" not in o:
             return "tensor expected"
-        d = _sp_dict(o["ok"])
+        d = _sp_dict(o["ok"], zeros_ok)
         want = {tuple(s[k] for k in keepi): v for s, v in din.items()}
         if d is None or o["ok"]["shape"] != nshape or d != want:
             return "squeezed sparse tensor differs"
